@@ -20,9 +20,9 @@ ASSUME = ["the simrex kernel, seams and probe nodes are correct (DESIGN 2, 10)",
 PROPS = {
     "C01": dict(mod="checks.c01", quick_runs=32, thorough_s=1500, opts=dict(pairs=1, max_nodes=4, max_steps=8), thorough_opts=dict(pairs=2, max_nodes=5, max_steps=12)),
     "C02": dict(mod="checks.c02", quick_runs=64, thorough_s=1500, opts=dict(variants=6), thorough_opts=dict(variants=16)),
-    "C03": dict(mod="checks.c03", quick_runs=96, thorough_s=1500, opts=dict(episodes=4, wall_p=0.0), thorough_opts=dict(episodes=6)),
+    "C03": dict(mod="checks.c03", quick_runs=96, thorough_s=1500, opts=dict(episodes=4, wall_p=0.12), thorough_opts=dict(episodes=6, wall_p=0.15)),
     "C04": dict(mod="checks.c04", quick_runs=96, thorough_s=1500, opts=dict(episodes=3), thorough_opts=dict(episodes=5)),
-    "C05": dict(mod="checks.c05", quick_runs=112, thorough_s=1500, opts=dict()),
+    "C05": dict(mod="checks.c05", quick_runs=112, thorough_s=1500, opts=dict(wall_p=0.1), thorough_opts=dict(wall_p=0.15)),
     "C06": dict(mod="checks.c06", quick_runs=48, thorough_s=1500, opts=dict(max_nodes=4, max_steps=8, compiled_p=0.4), thorough_opts=dict(max_nodes=5, max_steps=12, compiled_p=0.6)),
     "C07": dict(mod="checks.c07", quick_runs=48, thorough_s=1500, opts=dict(max_nodes=4, max_steps=8, pairs=2, generated_p=0.3), thorough_opts=dict(max_nodes=5, max_steps=12, pairs=6, generated_p=0.3)),
     "C08": dict(mod="checks.c08", quick_runs=32, thorough_s=1500, opts=dict(max_nodes=4, max_steps=14, variants=3), thorough_opts=dict(max_nodes=5, max_steps=20, variants=6)),
